@@ -136,8 +136,26 @@ pub fn complete_path(word: &str, for_dir: bool) -> Vec<Completion> {
                     }
                     let mut quoted = false;
                     if !path_sep.is_empty() {
-                        name = tools::wrap_sep_string(&path_sep, &name);
-                        quoted = true;
+                        // keep the quote the user opened only if the name
+                        // reads back unchanged inside it; otherwise use the
+                        // other quote, or backslash escapes.
+                        let fits_single = !name.contains('\'');
+                        let fits_double = !name.contains(|c| c == '"' || c == '$' || c == '\\' || c == '`');
+                        let sep = if path_sep == "'" && fits_single || path_sep == "\"" && fits_double {
+                            path_sep.as_str()
+                        } else if fits_single {
+                            "'"
+                        } else if fits_double {
+                            "\""
+                        } else {
+                            ""
+                        };
+                        if sep.is_empty() {
+                            name = tools::escape_path(&name);
+                        } else {
+                            name = format!("{}{}{}", sep, name, sep);
+                            quoted = true;
+                        }
                     }
                     let suffix = if is_dir {
                         if quoted {
